@@ -2293,8 +2293,9 @@ func headerError(typ string, err, errParse error, b []byte, secureErrorLogMessag
 	}
 
 	// Buggy servers may leave trailing CRLFs after http body.
-	// Treat this case as EOF.
-	if isOnlyCRLF(b) {
+	// Treat this case as EOF - unless they fill the whole read buffer: that
+	// is a head that does not fit, like any other.
+	if err != bufio.ErrBufferFull && isOnlyCRLF(b) {
 		return io.EOF
 	}
 
